@@ -360,7 +360,7 @@ void wwSetBits(word a[], size_t pos, size_t width, register word val)
 	// биты a[n + 1]
 	if (pos + width > B_PER_W)
 	{
-		a[n + 1] &= mask << pos;
+		a[n + 1] &= ~(mask >> (B_PER_W - pos));
 		a[n + 1] ^= (val & mask) >> (B_PER_W - pos);
 	}
 }
